@@ -141,6 +141,13 @@ def contracts():
                'local(value))',
                'off(result) == (off(value) if aware(value) else 0)'],
       serves=('C20',))
+    # equality compares instants (aware values, whatever their offsets)
+    c('yaql.standard_library.common.eq', name='common.eq/aware',
+      params=dict(left=AW, right=AW),
+      ensures=['result == (instant(left) == instant(right))'])
+    c('yaql.standard_library.common.neq', name='common.neq/aware',
+      params=dict(left=AW, right=AW),
+      ensures=['result == (instant(left) != instant(right))'])
     # known finding: `=` is plain Python equality, so a naive host datetime
     # never equals the aware datetime denoting the same instant
     c('yaql.standard_library.common.eq', name='common.eq/naive-vs-aware',
